@@ -26,6 +26,12 @@ RULES = {
         ("C06-dotproduct-lower-bounds", r"^DotProduct2CodeTrans@", "known/C06-dotproduct.txt"),
         ("C06-reduction2loop-drops-assignment", r"^(Minval|Maxval|Sum|Product)2LoopTrans@", "known/C06-reduction2loop.txt"),
     ],
+    "C09": [
+        ("C09-integer-division-subscript", r"^race:[^:]*:.*/ 2", "known/C09-intdiv.txt"),
+        ("C09-collapse-ignores-inner-loop-dependences", r"^race:[^:]*collapse2:(?!.*/ 2)", "known/C09-collapse.txt"),
+        ("C09-conditionally-written-scalar-firstprivate", r"^result:[^:]*:(?!.*/ 2).*cw-r", "known/C09-condwrite.txt"),
+        ("C09-shared-scalar-written-in-every-iteration", r"^race:(parallelloop|do\+parallel|paralleldo|loop\+parallel|teamsdistributeparalleldo):(?!.*/ 2)(C|CC|NC|P|Q):", "known/C09-sharedscalar.txt"),
+    ],
     "C08": [
         ("C08-integer-division-subscript", r"^carried-dependence:array:.*/ 2", "known/C08-intdiv.txt"),
         ("C08-conditional-scalar-write", r"^carried-dependence:scalar:.*\bcw", "known/C08-condwrite.txt"),
